@@ -8,6 +8,10 @@
   Proved:
     * the model's fit is *the* least-squares polynomial (`lsq_minimises`, `polyfit_minimises`) and reproduces
       cubics exactly (`lsq_exact_on_cubics`): "interpolated by a least-squares cubic in Eulerian strain of V·c";
+    * the model's solver is total where the property quantifies (`gauss_jordan_total`, `polyfit_answers`, `cubic_fit_exact`):
+      the unpivoted Gauss–Jordan elimination never meets a zero pivot on a system whose leading principal blocks are
+      non-singular, the normal equations of ≥ deg+1 distinct abscissae are such a system (positive definite), so `polyfit`
+      ANSWERS there and its answer is the least-squares polynomial;
     * decomposition total = static(key,V) + phonon(key,T,V) at every grid point (`c05_decomposition`), the phonon
       part is independent of the tabulated static values (`c05_phonon_indep_static`), the static part of T
       (`c05_static_indep_T`);
@@ -19,6 +23,7 @@
     filling (C08/C09), rounding inside numpy.polyfit.
 -/
 import CijProofs.Lemmas.FullModulus
+import CijProofs.Lemmas.GaussJordan
 import Generated.FullModulusSpec
 namespace Cij.C05
 
@@ -74,6 +79,54 @@ theorem lsq_exact_on_cubics (a b c d : α) (xs : List α) (p : List α)
   have := hpoly.eq_zero_of_four_roots x0 x1 x2 x3 h01 h02 h03 h12 h13 h23 (r x0 m0) (r x1 m1) (r x2 m2) (r x3 m3) x
   simp only [polyval_cubic] at this
   exact sub_eq_zero.mp this
+
+omit [LinearOrder α] [IsStrictOrderedRing α] in
+/-- **gauss_jordan_total.**  The model's UNPIVOTED Gauss–Jordan elimination `solve` on an `n × (n+1)` augmented system `[A | b]`
+over a field.  Exact hypothesis: every leading principal block of `A` is non-singular (`LeadingNonsing`: a vector supported on
+columns `0…k` and annihilated by rows `0…k` is zero — equivalently all leading principal minors ≠ 0; true of every symmetric
+positive definite `A`).  Then no step divides by zero (`gj_invariant`), and the returned vector `s` has `n` entries and solves
+the system: `Σ_j A[i][j]·s_j = b_i` for every row `i`. -/
+theorem gauss_jordan_total (m : List (List α)) (n : Nat) (h : Rect m n (n + 1)) (hL : LeadingNonsing (ent m) n) :
+    (∀ c < n, iterE (ent m) c c c ≠ 0) ∧ (solve m n).length = n ∧
+      ∀ i < n, ∑ j ∈ Finset.range n, ent m i j * (solve m n).getD j 0 = ent m i n :=
+  ⟨(gj_invariant (ent m) n hL n le_rfl).1, solve_correct m n h hL⟩
+
+/-- **polyfit_answers.**  For ANY ordinates on abscissae with at least `deg + 1` distinct values (the property: ≥ 4 distinct
+volumes for the cubic) the model of `numpy.polyfit` answers — `AᵀA` is positive definite (`normalAug_leadingNonsing`), the
+elimination completes and its result passes the certificate — and the answer is the least-squares polynomial. -/
+theorem polyfit_answers (xs ys : List α) (deg : Nat) (hl : xs.length = ys.length) (hdist : deg + 1 ≤ xs.toFinset.card) :
+    ∃ p, polyfit xs ys deg = some p ∧ p.length = deg + 1 ∧
+      ∀ p' : List α, p'.length ≤ deg + 1 → sqResidual xs ys p ≤ sqResidual xs ys p' := by
+  obtain ⟨p, hp⟩ := polyfit_total xs ys deg hl hdist
+  exact ⟨p, hp, polyfit_minimises xs ys deg p hp⟩
+
+/-- **cubic_fit_exact** (`lsq_exact_on_cubics` without the assumption that the solver answers): a table that IS a cubic in the
+abscissa on ≥ 4 distinct abscissae is fitted — the model answers — and reproduced exactly, everywhere. -/
+theorem cubic_fit_exact (a b c d : α) (xs : List α)
+    (x0 x1 x2 x3 : α) (m0 : x0 ∈ xs) (m1 : x1 ∈ xs) (m2 : x2 ∈ xs) (m3 : x3 ∈ xs)
+    (h01 : x0 ≠ x1) (h02 : x0 ≠ x2) (h03 : x0 ≠ x3) (h12 : x1 ≠ x2) (h13 : x1 ≠ x3) (h23 : x2 ≠ x3) :
+    ∃ p, polyfit xs (xs.map fun x => a + b * x + c * x ^ 2 + d * x ^ 3) 3 = some p ∧
+      ∀ x, polyval p x = a + b * x + c * x ^ 2 + d * x ^ 3 := by
+  have hcard : 3 + 1 ≤ xs.toFinset.card := by
+    have hsub : ({x0, x1, x2, x3} : Finset α) ⊆ xs.toFinset := by
+      intro y hy
+      simp only [Finset.mem_insert, Finset.mem_singleton] at hy
+      rcases hy with rfl | rfl | rfl | rfl <;> simpa using ‹_›
+    have h4 : ({x0, x1, x2, x3} : Finset α).card = 4 := by
+      rw [Finset.card_insert_of_notMem (by simp [h01, h02, h03]), Finset.card_insert_of_notMem (by simp [h12, h13]),
+        Finset.card_insert_of_notMem (by simp [h23]), Finset.card_singleton]
+    have := Finset.card_le_card hsub
+    omega
+  obtain ⟨p, hp⟩ := polyfit_total xs (xs.map fun x => a + b * x + c * x ^ 2 + d * x ^ 3) 3 (by simp) hcard
+  exact ⟨p, hp, lsq_exact_on_cubics a b c d xs p hp x0 x1 x2 x3 m0 m1 m2 m3 h01 h02 h03 h12 h13 h23⟩
+
+/-- non-vacuity of `gauss_jordan_total` / `polyfit_answers`: the hypotheses on an instance (5 abscissae, all distinct), an
+elimination that needs no pivoting although the system is not diagonally dominant, and the need for the hypothesis — a
+non-singular system with a zero LEADING entry, on which the unpivoted elimination does not produce the solution (1, 3) -/
+example : ([0, 1, 2, 3, 5] : List ℚ).length = ([1, 2, 9, 29, 126] : List ℚ).length ∧
+    3 + 1 ≤ ([0, 1, 2, 3, 5] : List ℚ).toFinset.card ∧
+    solve ([[1, 2, 5], [3, 4, 11]] : List (List ℚ)) 2 = [1, 2] ∧
+    solve ([[0, 1, 3], [2, 1, 5]] : List (List ℚ)) 2 ≠ [1, 3] := by decide +kernel
 
 /-- non-vacuity: an exact run of the model (5 points on x³ + 1) -/
 example : polyfit [(0 : ℚ), 1, 2, 3, 5] [1, 2, 9, 28, 126] 3 = some [1, 0, 0, 1] := by decide +kernel
